@@ -8,9 +8,11 @@ Line protocol for the C15 model (`Model/FailureProb.lean`) at `Float`.  Ops:
   c15.norm   sm ss lm ls               -> hex hex        (pf_norm_load and its complement 1 − pf = Φ(−z))
   c15.arb    sm ss (x pdf)*            -> hex            (pf_arbitrary_load)
   c15.normw  sm ss lm ls lo hi         -> hex            (pf_norm_load AS THE CODE COMPUTES IT, `pfNormLoadCode`: standardised
-                                                          window; branch rule of /repo 2da931b: direct integral of pdf·cdf_S, or
-                                                          window load mass − integral of pdf·sf_S for default limits with
-                                                          loc < 0 or direct > mass/2; load_std = 0 deterministic; lo, hi = explicit limits in log10 units or
+                                                          window; the MODEL's branch rule = that of /repo 2da931b: direct integral
+                                                          of pdf·cdf_S, or window load mass − integral of pdf·sf_S for default
+                                                          limits with loc < 0 or direct > mass/2 (the code follows /repo 9f34536
+                                                          since: complement in the second case only if also |mass| ≥ 1/2; the model
+                                                          was deliberately left as it is, same window integral); load_std = 0 deterministic; lo, hi = explicit limits in log10 units or
                                                           `-` for the default; `quad` = composite Gauss–Legendre on the
                                                           pieces between the limits and transition ± 10 strength_std)
 
